@@ -332,6 +332,15 @@ func (c *Ctx) idpInitiated(md mdEntity) {
 		if !found {
 			orc = "key=c05-idp-initiated form action " + loc + " is not a registered HTTP-POST ACS"
 		}
+	} else {
+		// "IdP-initiated flow selects a POST-binding ACS from the registry": when one is registered the launch goes there
+		for _, d := range md.Descs {
+			for _, ep := range d.ACS {
+				if ep.Binding == saml.HTTPPostBinding && orc == "" {
+					orc = "key=c05-idp-initiated-refused an HTTP-POST ACS (" + ep.Location + ") is registered but the IdP-initiated launch failed: " + impl
+				}
+			}
+		}
 	}
 	c.emit("idpinit", md.toks(), impl, orc)
 }
